@@ -598,6 +598,9 @@ class UCSolutionEnumerator():
         # uncrossed basic factors.
         level_combinations = self.__generate_source_combinations()
 
+        # Uncrossed derived factors that crossed derived factors depend on
+        derived_sources = sorted(self._partitions.get_uncrossed_derived_source_factors(), key=lambda f: f._get_depth())
+
         # Keep only allowed combos for each permutation
         for ci in self._crossing_instances:
             sc_indices = list(range(len(self._source_combinations)))
@@ -608,6 +611,10 @@ class UCSolutionEnumerator():
                 # though, so we can only perform this filtering for a derived factor that does
                 # not depend on a complex-window derived factor.
                 merged_levels = {**ci, **sc}
+                for df in derived_sources:
+                    for l in df.levels:
+                        if l.window.predicate(*[(merged_levels[f]).name for f in l.window.factors]):
+                            merged_levels[df] = l
                 for df in self._partitions.get_crossed_noncomplex_derived_factors():
                     # Not yet separating complex:
                     # assert not df.has_complex_window
